@@ -149,7 +149,7 @@ def csig(probs):
 
 def scenarios(tier):
     out = []
-    lens = (1, 9) if tier == 'quick' else (1, 7, 8, 9, 30)
+    lens = (1, 9) if tier == 'quick' else (1, 2, 7, 8, 9, 14, 15, 16, 30, 100)
     for sd in (None, 0xA55A):
         for n in lens:
             out.append({'cfg': {'seed': sd}, 'ops': [c17.rd(0x1000, n)]})
